@@ -85,6 +85,28 @@ pub fn lanes() -> Vec<Lane> {
         rule: "seeded LEAK scenarios (1-3 clients, 1-5 rounds of 1-5 lifecycles each: completed/failed single operations, timeouts with late replies, abandons of finished / timed-out / in-flight operations, search(), direct and adapted streams read to the end / finished early / finished twice / timed out, unsolicited traffic; a barrier and a table snapshot at quiescence after every round); non-trivial = a checkpoint was taken after at least three completed calls; distinct = distinct history-shape hash",
         quick: 100_000,
         thorough: 3_000_000,
+    },
+    Lane {
+        prop: "C05",
+        family: "IDS",
+        gen: gen::gen_ids,
+        cfg: cfg_alloc_snap,
+        check: oracle::check_c05,
+        nontrivial: ids_nontrivial,
+        rule: "seeded IDS scenarios (2-6 handles, up to 60 operations, counter pre-positioned at 2^31-1-k with k<=64 or elsewhere, up to 40 pre-seeded in-use IDs incl. 1, MAX, low runs and IDs just above the counter; searches kept outstanding while the counter is moved to just below their ID; H3 yield rate up to 1.0); non-trivial = the allocator wrapped around or skipped an in-use ID in this run; distinct = distinct history-shape hash",
+        quick: 150_000,
+        thorough: 4_000_000,
+    },
+    Lane {
+        prop: "C05",
+        family: "MUX",
+        gen: gen::gen_mux,
+        cfg: cfg_default,
+        check: oracle::check_c05_mux,
+        nontrivial: overlap,
+        rule: "MUX scenarios as a by-product: server-side ID checks only; non-trivial = at least two operations outstanding at once",
+        quick: 50_000,
+        thorough: 1_000_000,
     }]
 }
 
@@ -96,6 +118,28 @@ fn leak_nontrivial(_sc: &Scenario, rr: &RunResult) -> bool {
             EvKind::Return { .. } => rets += 1,
             EvKind::Snapshot { .. } if rets >= 3 => return true,
             _ => {}
+        }
+    }
+    false
+}
+
+fn cfg_alloc_snap(_sc: &Scenario, c: &mut RunCfg) {
+    c.alloc_snap = true;
+}
+
+fn ids_nontrivial(_sc: &Scenario, rr: &RunResult) -> bool {
+    // wrap-around or a skip: some allocation is not last+1
+    let mut prev: Option<(usize, usize, i32)> = None;
+    for e in &rr.hist {
+        if let EvKind::AllocSnap { client, step, last, .. } = &e.kind {
+            match prev.take() {
+                Some((c, s, l0)) if c == *client && s == *step => {
+                    if *last != l0 && *last as i64 != l0 as i64 + 1 {
+                        return true;
+                    }
+                }
+                _ => prev = Some((*client, *step, *last)),
+            }
         }
     }
     false
